@@ -109,7 +109,9 @@ def make_reply(request, outcome):
     with concrete():
         r = dns.message.make_response(request)
         q = request.question[0]
-        if outcome == ANSWER:
+        if outcome == ANSWER and q.rdtype == dns.rdatatype.TXT:
+            r.answer.append(dns.rrset.from_text(q.name.to_text(), 300, dns.rdataclass.to_text(q.rdclass), "TXT", '"x"'))
+        elif outcome == ANSWER:
             r.answer.append(dns.rrset.from_text(q.name.to_text(), 300, "IN", "A", "10.0.0.1"))
         elif outcome == CNAME_ANSWER:
             r.answer.append(dns.rrset.from_text(q.name.to_text(), 60, "IN", "CNAME", "target.example."))
@@ -296,7 +298,8 @@ def reference(nservers, outcomes, advances, tcp, retry_servfail, raise_on_no_ans
 
 # ---------------------------------------------------------------- H16a fault sequences
 
-def run_resolution(kind, nservers, outcomes, advances, tcp, retry_servfail, raise_on_no_answer, qname, search, cache=None, conf=None):
+def run_resolution(kind, nservers, outcomes, advances, tcp, retry_servfail, raise_on_no_answer, qname, search, cache=None, conf=None,
+                   rdtype="A", rdclass="IN"):
     res = get_resolver(kind)
     if conf is not None:
         res.search, res.domain, res.ndots = conf
@@ -307,9 +310,9 @@ def run_resolution(kind, nservers, outcomes, advances, tcp, retry_servfail, rais
     Clock.now = 0
     try:
         if kind == "sync":
-            ans = res.resolve(qname, "A", tcp=tcp, raise_on_no_answer=raise_on_no_answer, search=search)
+            ans = res.resolve(qname, rdtype, rdclass, tcp=tcp, raise_on_no_answer=raise_on_no_answer, search=search)
         else:
-            ans = drive(res.resolve(qname, "A", tcp=tcp, raise_on_no_answer=raise_on_no_answer, search=search, backend=FakeBackend()))
+            ans = drive(res.resolve(qname, rdtype, rdclass, tcp=tcp, raise_on_no_answer=raise_on_no_answer, search=search, backend=FakeBackend()))
     except (dns.resolver.NXDOMAIN, dns.resolver.YXDOMAIN, dns.resolver.NoAnswer, dns.resolver.NoNameservers, dns.resolver.LifetimeTimeout) as e:
         return type(e).__name__, script.log
     if ans.rrset is None:
@@ -493,6 +496,29 @@ def h16f_pre(o1, second_type_a):
     return 0 <= o1 <= 5 and second_type_a
 
 
+CLASSES = ["IN", "CH"]
+
+
+def h16f2(o1: int, c1: int, c2: int, is_async: bool) -> bool:
+    """The cache key includes the class: a result learned in one class (answer, no data, NXDOMAIN) answers a later resolution of the same
+    name and type in that class only; in the other class the server is asked."""
+    cache = dns.resolver.Cache() if S("cache") == "simple" else dns.resolver.LRUCache(4)
+    kind = "async" if is_async else "sync"
+    got, log = run_resolution(kind, 1, [o1], [0], False, False, False, "www.example.", False, cache=cache, rdtype="TXT", rdclass=CLASSES[c1])
+    if len(log) != 1:
+        return False
+    got2, log2 = run_resolution(kind, 1, [ANSWER], [0], False, False, False, "www.example.", False, cache=cache, rdtype="TXT", rdclass=CLASSES[c2])
+    Clock.now = 0
+    hit("second")
+    if c1 == c2:
+        return got2 == got and len(log2) == 0
+    return len(log2) == 1 and got2 == ("answer", "www.example.", "www.example.")
+
+
+def h16f2_pre(o1, c1, c2, is_async):
+    return o1 in (ANSWER, NODATA, NXDOMAIN) and 0 <= c1 <= 1 and 0 <= c2 <= 1
+
+
 HARNESSES = [
     Harness("H16a", h16a, h16a_pre, h16a_shards, kind="finite selection of outcomes, universal-ish clock advances",
             encodes=["dns.resolver._Resolution.next_request", "dns.resolver._Resolution.next_nameserver", "dns.resolver._Resolution.query_result",
@@ -500,6 +526,11 @@ HARNESSES = [
                      "dns.resolver.Answer.__init__", "dns.message.QueryMessage.resolve_chaining"],
             bound="every sequence of 3 (thorough 4) per-query outcomes over 11 kinds (answer, CNAME answer, no data, NXDOMAIN, SERVFAIL, REFUSED, malformed, truncated, timeout, OSError, YXDOMAIN), clock advance 0..3 s per query, lifetime 5 s, timeout 2 s; 1-2 servers; tcp on/off; retry_servfail, raise_on_no_answer symbolic; sync resolver (async: 2 servers UDP quick, all thorough); result and exact (server, transport) sequence compared with the reference table",
             stubs=["E7", "E8", "E6"], outside="longer sequences; sub-second timing; DoH/DoQ servers; rotate"),
+    Harness("H16f2", h16f2, h16f2_pre, lambda tier: [{"cache": c, "_timeout": 600, "_path_timeout": 120} for c in ("simple", "lru")], kind="finite selection, exhaustive",
+            encodes=["dns.resolver._Resolution.next_request", "dns.resolver._Resolution.query_result", "dns.resolver.Cache.get", "dns.resolver.Cache.put",
+                     "dns.resolver.LRUCache.get", "dns.resolver.LRUCache.put"],
+            bound="first resolution in class IN or CH ending in answer / no data / NXDOMAIN, second resolution of the same name and type in class IN or CH; both cache classes; sync and async",
+            stubs=["E7", "E6", "E13"], outside="other classes and types"),
     Harness("H16e", h16e, h16e_pre, lambda tier: [{"_timeout": 900, "_path_timeout": 120}], kind="finite selection",
             encodes=["dns.resolver.BaseResolver._get_qnames_to_try", "dns.resolver._Resolution.next_request", "dns.resolver.NXDOMAIN.__init__"],
             bound="query names of 1-3 labels, relative / absolute, search on/off, ndots None/0..3, search list of 0-2 entries, domain set or root", stubs=["E7", "E6"], outside=""),
